@@ -30,6 +30,9 @@ ASSUMPTIONS = [
 ]
 
 
+from .common_node import clock_sources
+
+
 def run(ctx: Ctx):
     model = ctx.model
     nc = model.cls("node.node", "Node")
@@ -101,10 +104,10 @@ def run(ctx: Ctx):
     okw = False
     for w in whiles:
         body = ast.unparse(w.ast)
-        if "self.connections" in ast.unparse(w.ast.test) and wt and "time.time()" in body:
+        if "self.connections" in ast.unparse(w.ast.test) and wt and clock_sources(model, f.module, w.ast, f.cls):
             # a break/exit guarded by  time.time() >= wait_until
             wu = [n for n in g.nodes if n.kind == "stmt" and isinstance(n.ast, ast.Assign)
-                  and wt in ast.unparse(n.ast.value) and "time.time()" in ast.unparse(n.ast.value)]
+                  and wt in ast.unparse(n.ast.value) and clock_sources(model, f.module, n.ast.value, f.cls)]
             brk = [n for n in g.nodes if n.kind == "stmt" and isinstance(n.ast, ast.Break)]
             if wu and brk:
                 wv = A.dotted(wu[0].ast.targets[0])
